@@ -1,2 +1,8 @@
 pub mod engine;
+pub mod gen_basic;
+pub mod gen_more;
 pub mod hist;
+pub mod ir;
+pub mod refsem;
+pub mod region;
+pub mod shrink;
